@@ -22,13 +22,30 @@ def mk_circuit(ex, st, tag, wf=True):
     goid = alloc(st, g, tag + "_graph")
     boid = alloc(st, BBDict.fresh(ex.ctx, tag), tag + "_bbs")
     ref = ObjRef(alloc(st, CircuitRec(goid, boid, NameV(ex.ctx.fresh_name(tag + "_name"))), tag), "Circuit")
+    # symbolic inputs of the variant being set up (used to turn a counter-model into a concrete input, pyvc/replay.py)
+    ins = getattr(ex.ctx, "_inputs", None)
+    if ins is None or tag in ins["circuits"] or ins.get("ex") is not ex:
+        ins = {"circuits": {}, "args": {}, "ex": ex}
+        ex.ctx._inputs = ins
+    ins["circuits"][tag] = (g, st.heap[boid])
     if wf:
         st.pc.append(g.wf(ex.ctx))
     return ref
 
 
+def note_arg(ex, tag, value):
+    ins = getattr(ex.ctx, "_inputs", None)
+    if ins is not None and ins.get("ex") is ex:
+        ins["args"][tag] = value
+    return value
+
+
 def mk_names(ex, tag, is_list=True):
     """an arbitrary finite collection of names (list: multiset with unknown order)."""
+    return note_arg(ex, tag, _mk_names(ex, tag, is_list))
+
+
+def _mk_names(ex, tag, is_list=True):
     ctx = ex.ctx
     if is_list:
         arr = ctx.fresh(tag + "_cnt", z3.ArraySort(ctx.Name, z3.IntSort()))
@@ -301,6 +318,9 @@ def strfact_goal(fact):
         lhs = _tpl(a, xs[:-1] + [_tpl(b, [xs[-1]] + ys[1:])])
         rhs = _tpl(b, [_tpl(a, xs)] + ys[1:])
         return [lhs == rhs]
+    if kind == "lit-instance":
+        lit, parts, mid = fact[1], fact[2], fact[3]
+        return [_tpl(parts, [z3.StringVal(mid)]) == z3.StringVal(lit)]
     if kind == "same-head":
         a, b = fact[1], fact[2]
         h = S("h")
@@ -476,6 +496,7 @@ def solve(ctx, ob, timeout_ms=20000):
         res["status"] = "refuted"
         try:
             m = s.model()
+            res["_model"] = m
             res["model"] = str(m)[:1500]
         except Exception:
             pass
